@@ -2,7 +2,7 @@
 
 use crate::engine::{fp, replay_entry, CaseInfo, ReplayEntry, Run, Verdict};
 use crate::gen::{arb_value, GenCfg};
-use crate::netbed::{advance, library_panics_since, node_with_peer, panic_mark, run_case, BedErr};
+use crate::netbed::{advance, connect_node, library_panics_since, panic_mark, run_case, started_node, BedErr};
 use crate::nodebed::{new_log, pass_through_frame, pid_value, reg_send_frame, remote_pid, send_frame, wait_until, Event, Log, Recorder};
 use edp_node::Node;
 use erltf::{Atom, ExternalPid, OwnedTerm};
@@ -53,6 +53,9 @@ pub struct Case {
     /// where the k-th marker frame (and the item's own frame) is cut into two TCP segments (0 = written whole)
     #[serde(default)]
     pub cuts: Vec<u8>,
+    /// the peer sends its first message in one piece with the handshake acknowledgement
+    #[serde(default)]
+    pub eager: bool,
 }
 
 struct Outcome {
@@ -101,12 +104,19 @@ async fn setup(node: &Arc<Node>, gate: &Arc<tokio::sync::Notify>) -> Result<(Vec
 fn run_net(c: &Case) -> Result<Result<Outcome, String>, BedErr> {
     let c = c.clone();
     run_case(Duration::from_secs(40), move |bed| async move {
-        let (node, mut p) = node_with_peer(&bed, u64::MAX).await?;
+        // the processes exist before the peer appears, so that a peer which starts talking at once finds its recipients
+        let node = started_node().await?;
         let gate = Arc::new(tokio::sync::Notify::new());
         let (live, (spid, slog), (dpid, dlog)) = setup(&node, &gate).await?;
+        let eager = marker(777_777);
+        let trailer = if c.eager { send_frame(&pid_value(&spid), &eager) } else { vec![] };
+        let mut p = connect_node(&bed, &node, u64::MAX, &trailer).await?;
         let never = ExternalPid::new(Atom::new("rust@127.0.0.1"), 999_999, 7, node.creation());
         let mut expected: Vec<Vec<Event>> = vec![vec![]; N_LIVE];
         let mut problems: Vec<(String, String)> = vec![];
+        if c.eager && !wait_until(Duration::from_secs(5), || slog.lock().unwrap().iter().any(|e| *e == Event::Regular(eager.canon()))).await {
+            problems.push(("receiver-stopped-or-message-lost".into(), "the message the peer sent in one piece with its handshake acknowledgement was never delivered".into()));
+        }
         let mut markers = 0usize;
         let (mut had_bad, mut had_quiet, mut fatal) = (false, false, false);
         let target_pid = |t: &Target| -> Value {
@@ -360,11 +370,11 @@ fn strategy() -> impl Strategy<Value = Case> {
         1 => (0u8..3, any::<u16>()).prop_map(|(to, n)| Item::Burst { to, n }),
     ];
     let fatal = prop_oneof![any::<u32>().prop_map(Item::OverLongLength), any::<u8>().prop_map(Item::CloseMidFrame), Just(Item::Close)];
-    (prop::collection::vec(item, 1..14), prop::option::weighted(0.4, fatal), prop_oneof![2 => Just(vec![]), 3 => prop::collection::vec(prop_oneof![Just(0u8), any::<u8>()], 1..6)]).prop_map(|(mut items, f, cuts)| {
+    (prop::collection::vec(item, 1..14), prop::option::weighted(0.4, fatal), prop_oneof![2 => Just(vec![]), 3 => prop::collection::vec(prop_oneof![Just(0u8), any::<u8>()], 1..6)], prop::bool::weighted(0.3)).prop_map(|(mut items, f, cuts, eager)| {
         if let Some(f) = f {
             items.push(f);
         }
-        Case { items, cuts }
+        Case { items, cuts, eager }
     })
 }
 
